@@ -112,4 +112,14 @@ static _Bool X_op_eq__unique_ptr_tulz_Subject_std_default_delete_tulz_Subject_re
 struct closure_Node__exists_1; struct closure_Node__shrink_1;
 static _Bool X_any_of__CIt_CIt_closure_Node__exists_1(struct CIt b, struct CIt e, struct closure_Node__exists_1 pred);
 static size_t ERASE_IF_SHRINK(struct CMap *m, struct closure_Node__shrink_1 pred);
+static void CMap__ctor_default(struct CMap *m);
+static void CMap__ctor_move(struct CMap *m, struct CMap *o);
+static void CMap__dtor(struct CMap *m);
+static void SPtr__ctor_move(struct SPtr *p, struct SPtr *o);
+static void SPtr__dtor(struct SPtr *p);
+static void SPtr__reset(struct SPtr *p, struct Subj0 *s);
+static void CEnt__ctor__Str_ref_Node_rref(struct CEnt *e, struct Str *name, struct Node *n);
+static void CMap__insert(struct CMap *m, struct CEnt *val, struct CIns *r);
+/* the last level of the key */
+#define LASTLVL(lv) ((lv).m_key->m_levels.items[LCOUNT(lv) - 1])
 #endif
